@@ -96,18 +96,34 @@ class CallMixin(object):
 
     def bind(self, fnode, args, kwargs, defaults_from=None, st=None):
         a = fnode.args
-        if a.vararg or a.kwarg or a.posonlyargs:
-            raise EngineError('varargs in callee %s' % getattr(fnode, 'name', '<lambda>'))
+        if a.posonlyargs:
+            raise EngineError('positional-only args in callee %s' % getattr(fnode, 'name', '<lambda>'))
         names = [x.arg for x in a.args]
         env = {}
         if len(args) > len(names):
-            raise EngineError('too many arguments')
+            if not a.vararg:
+                raise EngineError('too many arguments')
+            env[a.vararg.arg] = PyTuple(args[len(names):])
+            args = args[:len(names)]
+        elif a.vararg:
+            env[a.vararg.arg] = PyTuple([])
         for n, v in zip(names, args):
             env[n] = v
+        known = set(names) | {x.arg for x in a.kwonlyargs}
+        extra = {}
         for k, v in kwargs.items():
             if k in env:
                 raise EngineError('duplicate argument')
+            if k not in known:
+                if not a.kwarg:
+                    raise EngineError('unexpected keyword argument %s' % k)
+                extra[k] = v
+                continue
             env[k] = v
+        if a.kwarg:
+            if extra:
+                raise EngineError('**kwargs with content')
+            env[a.kwarg.arg] = PyObj({})
         ndef = len(a.defaults)
         for i, n in enumerate(names):
             if n not in env:
@@ -279,6 +295,15 @@ class CallMixin(object):
                 return self.lift(list(v.o))
             if isinstance(v, V) and v.hint is not None and v.hint.kind in ('list', 'tuple'):
                 return self.copy_list(st, v)
+            if isinstance(v, V):
+                # list(<set or other iterable>): a fresh list of the same size, element order unknown
+                ok = isinstance_term(v.t, (list, tuple, set, dict))
+                self.raise_exit(st, TypeError, Not(ok), line)
+                nr = self.new_ref(st, list)
+                st.heap['$LEN'] = z3.Store(self.harr(st, '$LEN'), nr, self.list_len(st, Val.r(v.t)))
+                st.heap['$ELEM'] = z3.Store(self.harr(st, '$ELEM'), nr, fresh('listof', z3.ArraySort(IntS, Val)))
+                self.trust('list(set): elements in unspecified order (unconstrained)')
+                return V(mkR(nr), parse_spec('list'))
             raise EngineError('list() of %r' % (v,))
         if o is set:
             if not args:
@@ -438,6 +463,9 @@ class CallMixin(object):
                 return self.str_method(st, self.lift(o), name, args, kwargs, line)
             raise EngineError('method %s on python object %r' % (name, type(o)))
         h = selfv.hint
+        if h is not None and h.kind == 'opaque':
+            self.trust('method calls on opaque objects (output streams etc.) have no effect on the modelled state')
+            return V(fresh('opaque_' + name), None)
         if h is None:
             raise EngineError('method %s on value without static type' % name)
         if h.kind == 'str':
